@@ -28,7 +28,8 @@ CardNF(c) == /\ Bound(c[1]) /\ Bound(c[2])
 Falsy(b) == b = N \/ b = 0
 \* wrong-length sequences (also those holding only zeros / None) and other types are never accepted;
 \* empty / zero objects of other types ((), [], "", 0.0) are a grey zone like 0: refused or "unset"
-WrongForms == {"str", "float", "pairfloat", "tuple1", "tuple3", "tuple3z", "tuple1n", "list1z", "tuple3n", "pairstr"}
+\* samefloat: the current setting written with floats ((1.0, 2.0) while (1, 2) is set)
+WrongForms == {"str", "float", "pairfloat", "samefloat", "tuple1", "tuple3", "tuple3z", "tuple1n", "list1z", "tuple3n", "pairstr"}
 GreyForms == {"tuple0", "list0", "emptystr", "float0"}
 \* REFERENCE: result of assigning x, Raise when refused
 FormatCard(x) ==
